@@ -11,6 +11,10 @@
 //!   `run <self> <ev>...`   ev = `s:<id>.<addr>.<dc>,...` (a snapshot, `s:` = empty) | `sub` | `rd`
 //!                          exactly one `sub`; no `rd` before it
 //!   `diff <self> s:<prev> s:<new>`   the change published for `new` right after `prev`
+//!   `dist <self> s:.. s:.. ...`      every published change is handed, in order, to the real task
+//!                          distributor of datacake-eventual-consistency (the consumer of the
+//!                          events), then one mutation is queued: which addresses receive the
+//!                          batch?  Result `recv=[addr,..]` = the live peers the distributor holds.
 //! Result of `run`: one token per poll (`J[..]L[..]` or `-` when pending), the final poll
 //! included, then `live=[id.addr,..] late=b coal=b holds=b`.
 //!
@@ -349,6 +353,141 @@ fn do_run(rt: &tokio::runtime::Runtime, w: &mut CaseWriter, self_id: u8, evs: &[
     }
 }
 
+// ------------------------------------------------------------- the consumer: task distributor
+
+/// Hands every change the real watcher publishes for `snaps` to the real task distributor,
+/// queues one put and returns the addresses whose node received it with the next batch.
+async fn run_dist(self_id: u8, snaps: &[Snapshot]) -> Result<Vec<u16>, String> {
+    use std::sync::Arc;
+
+    use datacake_crdt::HLCTimestamp;
+    use datacake_eventual_consistency::test_utils::MemStore;
+    use datacake_eventual_consistency::verif::{start_distributor, ConsistencyService, KeyspaceGroup, Mutation};
+    use datacake_eventual_consistency::{Document, Storage};
+    use datacake_rpc::Server;
+
+    const KS: &str = "ks";
+    let self_addr = addr_of(0xffff);
+    let network = RpcNetwork::default();
+    let statistics = ClusterStatistics::default();
+    let selector = start_node_selector(self_addr, Cow::Borrowed("dc0"), DCAwareSelector).await;
+    let (tx, rx) = watch::channel(MembershipChange::default());
+    let mut tx = Some(tx);
+    let mut probe = rx.clone();
+    let clock = Clock::new(self_id);
+    let distributor = start_distributor::<MemStore>(clock.clone(), network.clone(), self_id, self_addr).await;
+
+    // one in-process node behind every address that ever appears
+    let mut addrs: BTreeSet<u16> = BTreeSet::new();
+    for s in snaps {
+        for (i, a, _) in s {
+            if *i != self_id {
+                addrs.insert(*a);
+            }
+        }
+    }
+    let mut peers: Vec<(u16, Arc<MemStore>, Server)> = Vec::new();
+    for (n, a) in addrs.iter().enumerate() {
+        datacake_rpc::verif::unregister_local_server(addr_of(*a));
+        let store = Arc::new(MemStore::default());
+        let group = KeyspaceGroup::new(store.clone(), Clock::new(100 + n as u8)).await;
+        let server = Server::verif_local(addr_of(*a));
+        server.add_service(ConsistencyService::new(group, RpcNetwork::default()));
+        peers.push((*a, store, server));
+    }
+
+    let mut snap_tx: Option<watch::Sender<NodeMembership>> = None;
+    for s in snaps {
+        let m = to_membership(s);
+        match &snap_tx {
+            None => {
+                let (stx, srx) = watch::channel(m);
+                snap_tx = Some(stx);
+                tokio::spawn(run_membership_watcher(
+                    self_id,
+                    network.clone(),
+                    selector.clone(),
+                    statistics.clone(),
+                    WatchStream::new(srx),
+                    tx.take().unwrap(),
+                ));
+            },
+            Some(stx) => {
+                let _ = stx.send(m);
+            },
+        }
+        let mut n = 0;
+        loop {
+            tokio::task::yield_now().await;
+            if probe.has_changed().unwrap_or(false) {
+                break;
+            }
+            n += 1;
+            if n > 400 {
+                return Err("no publication after a snapshot".into());
+            }
+        }
+        // what lib.rs does with every event of its membership stream
+        let change = probe.borrow_and_update().clone();
+        distributor.membership_change(change);
+    }
+    let doc = Document::new(7, HLCTimestamp::from_u64(clock.get_time().await.as_u64()), vec![1, 2, 3]);
+    distributor.mutation(Mutation::Put { keyspace: Cow::Borrowed(KS), doc });
+    tokio::time::sleep(std::time::Duration::from_millis(2500)).await;
+    for _ in 0..50 {
+        tokio::task::yield_now().await;
+    }
+    let mut got = Vec::new();
+    for (a, store, _) in &peers {
+        if store.get(KS, 7).await.ok().flatten().is_some() {
+            got.push(*a);
+        }
+    }
+    distributor.kill();
+    for (a, _, server) in peers {
+        server.shutdown();
+        datacake_rpc::verif::unregister_local_server(addr_of(a));
+    }
+    drop(snap_tx);
+    Ok(got)
+}
+
+fn do_dist(w: &mut CaseWriter, self_id: u8, snaps: &[Snapshot]) {
+    let parts: Vec<String> = snaps.iter().map(show_snapshot).collect();
+    let case = format!("dist {:x} {}", self_id, parts.join(" "));
+    let rt = tokio::runtime::Builder::new_current_thread().enable_all().start_paused(true).build().unwrap();
+    let out = rt.block_on(run_dist(self_id, snaps));
+    drop(rt);
+    match out {
+        Err(e) => {
+            w.case(&case, "stuck");
+            w.fail("watcher-does-not-publish", &case, &e);
+        },
+        Ok(got) => {
+            let show = |v: &[u16]| {
+                let p: Vec<String> = v.iter().map(|a| format!("{:x}", a)).collect();
+                format!("[{}]", p.join(","))
+            };
+            w.case(&case, &format!("recv={}", show(&got)));
+            w.stats.hit("dist_cases");
+            // Oracle: the batch addresses exactly the live peers of the last snapshot.
+            let mut want: Vec<u16> = snaps
+                .last()
+                .map(|s| s.iter().filter(|(i, _, _)| *i != self_id).map(|(_, a, _)| *a).collect())
+                .unwrap_or_default();
+            want.sort();
+            want.dedup();
+            if got != want {
+                w.fail(
+                    "consumer-does-not-hold-the-live-peers",
+                    &case,
+                    &format!("the distributor's batch reached {} but the live peers are {}", show(&got), show(&want)),
+                );
+            }
+        },
+    }
+}
+
 fn do_diff(rt: &tokio::runtime::Runtime, w: &mut CaseWriter, self_id: u8, prev: &Snapshot, new: &Snapshot) {
     let case = format!("diff {:x} {} {}", self_id, show_snapshot(prev), show_snapshot(new));
     // the watcher is started on `prev`, then handed `new`; a receiver that looks at the channel
@@ -608,6 +747,16 @@ fn main() {
             }
             match parse_case(line) {
                 Some((kind, self_id, evs)) if kind == "run" => do_run(&rt, &mut w, self_id, &evs),
+                Some((kind, self_id, evs)) if kind == "dist" => {
+                    let snaps: Vec<Snapshot> = evs
+                        .iter()
+                        .filter_map(|e| match e {
+                            Ev::Snap(s) => Some(s.clone()),
+                            _ => None,
+                        })
+                        .collect();
+                    do_dist(&mut w, self_id, &snaps)
+                },
                 Some((kind, self_id, evs)) if kind == "diff" => match evs.as_slice() {
                     [Ev::Snap(a), Ev::Snap(b)] => do_diff(&rt, &mut w, self_id, a, b),
                     _ => w.case(line, "?bad-case"),
@@ -648,6 +797,42 @@ fn main() {
     let seq_b = sweep(&rt, &mut w, 0, &uni2, if args.thorough() { 5 } else { 4 });
     let uni2s = universe(&[1, 2], &[0xa, 0xb], &[]);
     let seq_c = sweep(&rt, &mut w, 1, &uni2s, 3);
+    //    D: the consumer - every change handed to the real task distributor: every snapshot
+    //       sequence of length <= 3 over 2 ids x 2 addresses (address changes included), and
+    //       length <= 2 over 3 ids x 2 addresses
+    let mut ndist = 0u64;
+    for len in 1..=3usize {
+        let mut idx = vec![0usize; len];
+        loop {
+            let snaps: Vec<Snapshot> = idx.iter().map(|i| uni2[*i].clone()).collect();
+            do_dist(&mut w, 0, &snaps);
+            ndist += 1;
+            let mut p = len;
+            let mut done = false;
+            loop {
+                if p == 0 {
+                    done = true;
+                    break;
+                }
+                p -= 1;
+                idx[p] += 1;
+                if idx[p] < uni2.len() {
+                    break;
+                }
+                idx[p] = 0;
+            }
+            if done {
+                break;
+            }
+        }
+    }
+    for a in &uni3 {
+        for b in &uni3 {
+            do_dist(&mut w, 0, &[a.clone(), b.clone()]);
+            ndist += 1;
+        }
+    }
+    w.stats.add("dist_sequences", ndist);
     let exhaustive_cases = w.n;
 
     // 3. random longer histories (joins, leaves, address and data-centre changes, rejoin,
